@@ -244,4 +244,12 @@ def main():
                     "label": next(t["labels"][m["index"]] for t in traces if t["id"] == m["trace"])[:900]}
                    for m in metas if m["class"] in ("leaf", "value-byte") and m["base"] >= 0][:2])
     R.coverage["traces_validated_against_impl"] = len(traces)
+    # C05 -> C02 bridge (accepted messages satisfy Net.v's deliverability premise), built separately: props/c05_bridge.py
+    try:
+        import c05_bridge
+    except ImportError:
+        c05_bridge = None
+        R.notes.append("bridge part (props/c05_bridge.py) not present in this tree")
+    if c05_bridge is not None:
+        c05_bridge.run(R)
     R.finish()
